@@ -1108,6 +1108,9 @@ def run(ck):
     ck.cov["error_codes_defined_all_used"] = all(c in g.codes_used for c in range(-1, 120))
 
     if thorough:
+        # other builders recompile shared .vo files while a long run is in progress: bring this property's cone up to
+        # date again right before the independent checker reads it
+        vlib.build_all([MODEL, CL.MODEL], targets=["Props/C05.vo"])
         ck.coqchk(["AV.Props.C05"])
     ck.cov["rule"] = ("seeded generator (random.Random(VERIF_SEED)) of abstract responses for the 13 APIs + 2 embedded consumer-protocol "
                       "structures: 0..n topics/partitions/members/brokers (n up to 8; 300 partitions, 1024/1025 brokers, 32767-byte strings "
